@@ -191,9 +191,10 @@ class SimKernel:
     def _queue(self, ino, rec):
         # the kernel coalesces an event identical to the newest unread one
         if ino["queue"] and ino["queue"][-1] == rec:
-            return
+            return False
         ino["queue"].append(rec)
         self._wake_pollers()
+        return True
 
     def _wake_pollers(self):
         s = core.ACTIVE()
@@ -204,7 +205,7 @@ class SimKernel:
     def inject(self, fd, wd, mask, cookie=0, name=b""):
         """Queue one raw record on inotify instance fd."""
         ent = self.fds[fd]
-        self._queue(ent["obj"], encode_event(wd, mask, cookie, name))
+        return self._queue(ent["obj"], encode_event(wd, mask, cookie, name))
 
     def notify_node(self, node, mask, cookie=0, name=b""):
         """Deliver an event to every inotify instance watching `node` whose mask selects it."""
